@@ -27,6 +27,14 @@ D = {
  'C13-setfd-instead-of-setfl': ('C13', 'set_flags uses F_GETFD/F_SETFD (O_NONBLOCK never set)', 'a blocking pipe whose write end is completely full at a delivery'),
  'C13-double-close-on-error': ('C13', 'register_raw closes the descriptor again when the registration returns an error', 'a rejection by error return (invalid signal number)'),
  'C18-seen-not-sticky': ('C18', 'update_seen overwrites the seen flag instead of or-ing it', 'deliveries on two threads that keep overlapping while a mutator runs'),
+ 'C06-enqueue-stale-position': ('C06', 'enqueue computes the free position once, before its CAS retry loop', 'a CAS failure caused by another enqueue on the same queue (two senders, or a send nested in a send): the retry writes over the position the other one filled'),
+ 'C06-recv-enqueue-relaxed': ('C06', 'enqueue takes the success ordering as a parameter; recv returns the slot to `empty` with Relaxed', 'weak hardware or the declared-orderings view: the next send\'s cell write is not ordered after the take (invisible on x86)'),
+ 'C07-dequeue-stale-val': ('C07', 'dequeue computes the head once, before its CAS retry loop', 'a CAS failure caused by another dequeue on the same queue: both own the same slot (cell overwritten / taken while empty)'),
+ 'C07-empty-queue-relaxed': ('C07', 'the enqueue on the `empty` queue (recv, new) is Relaxed', 'declared-orderings view only: take -> later cell write unordered; x86 cannot show it'),
+ 'C08-send-waits-for-slot': ('C08', 'send spins on dequeue(empty) while fewer than 5 values are in `full`', 'all slots used with one in flight and a send arriving in that window on the same thread (handler inside recv/send)'),
+ 'C08-dequeue-hoisted-head': ('C08', 'dequeue hoists `val`/emptiness test out of the retry loop', 'send-in-send or recv-in-recv at the instruction between load and CAS: both own one index, recv panics "Full slot with nothing in it"'),
+ 'C10-add-signal-lock-gap': ('C10', 'Handle::add_signal checks and records under two separate lock acquisitions, registering unlocked in between', 'two overlapping add_signal(S) on clones of one handle, then one delivery of S: two actions feed one channel, two records per delivery'),
+ 'C10-recv-enqueue-before-take': ('C10', 'Channel::recv returns the slot to `empty` before taking the value out of it', 'buffer full (5 records) and a delivery of the same signal between the enqueue and the take: the newest record overwrites the oldest, later panic'),
  'C18-unregister-read-then-write': ('C18', 'unregister looks the id up under a read guard that is still held while write() blocks', 'two mutators: one holds the mutex before its barrier\'s first check, the other\'s unregister has incremented a reader slot and blocks on the mutex'),
 }
 for name, (prop, change, needs) in D.items():
@@ -49,7 +57,11 @@ for name, (prop, change, needs) in D.items():
                 if len(verdicts[cur]['what']) < 2:
                     verdicts[cur]['what'].append(l.strip()[5:].strip()[:300])
         return verdicts
-    after = parse(open(os.path.join(d, 'checks_after_strengthening.log')).read()) if os.path.exists(os.path.join(d, 'checks_after_strengthening.log')) else None
+    import glob
+    later = sorted(glob.glob(os.path.join(d, 'checks_after_strengthening*.log')))
+    after = None
+    for lf in later:       # later logs refine earlier ones check by check
+        after = dict(after or {}, **parse(open(lf).read()))
     verdicts = {}
     cur = None
     for l in chk.split('\n'):
